@@ -156,6 +156,32 @@ def run(ctx):
         if not isinstance(out, str):
             ctx.fail({"stream": "master", "master": mt, "sources": srcs}, "fetch/extract/format/diff: %s" % (out,),
                      finding=["D9"] if _fetch.has_nested_further(tree) else None)
+    # ---- masters whose scopes / definitions carry .alias x sources spelt with the alias, the name, both, or the wrong kind
+    for i in range(ctx.scale(150, 3000, 600)):
+        al = rng.choice(["f", "f", "g.h", "s", "a"])
+        mult = rng.choice(["", "", "  .multiple = True\n"])
+        inner = rng.choice(["  a = 1\n", "  a = 1\n    .alias = %s\n" % rng.choice(["q", "f"]), "  t {\n    a = 1\n  }\n",
+                            "  t\n    .alias = u\n  {\n    a = 1\n  }\n"])
+        body = "s\n  .alias = %s\n%s{\n%s}\n" % (al, mult, inner)
+        mt = rng.choice([body, "p {\n%s}\n" % "".join("  " + l + "\n" for l in body.splitlines()), "b = 1\n  .alias = %s\n%s" % (al, body)])
+        lines = []
+        for _ in range(rng.randint(1, 3)):
+            head = rng.choice([al, al, "s", "p." + al, "p.s", "q", "u"])
+            lines.append(rng.choice(["%s.a = 2\n", "%s {\n  a = 3\n}\n", "%s.t.a = 4\n", "%s = 5\n", "%s.u.a = 6\n", "%s.q = 7\n",
+                                     "%s {\n  t {\n    a = 8\n  }\n}\n"]) % head)
+        st = "".join(lines)
+
+        def fa():
+            m = freephil.parse(input_string=mt)
+            w = m.fetch(source=freephil.parse(input_string=st))
+            w.extract()
+            m.fetch_diff(source=w)
+            m.fetch(source=w)
+        out = guarded(fa)
+        ctx.case(("alias", mt, st), nontrivial=True)
+        ctx.count("alias_%s" % (out if isinstance(out, str) else out[0]))
+        if not isinstance(out, str):
+            ctx.fail({"stream": "alias", "master": mt, "source": st}, "fetch/extract/diff with aliases: %s" % (out,))
     for i in range(n):
         if ctx.time_left() < 25:
             ctx.notes.append("stopped early on time budget")
@@ -168,6 +194,21 @@ def run(ctx):
                     + rng.choice(["#phil", "#phil__ON__", "#philosophy", "#phil __ON__", "#phil  ", "#phil\n__ON__", "#phil __END__",
                                   "#phil __O", " #phil", "#phil\t", "#phil __ON__ x", "#"])
                     + rng.choice(["", "", "\n", " ", "\nb = 2"]))
+        elif k == 0 and i % 15 == 5:
+            # every shape of a dotted name: empty, digit-initial, forbidden-character components at every position
+            comps = [rng.choice(["a", "b1", "_x", "s", "", "", "1a", "a-b", "$", "a$b", "include", "__ON__", "é", "a b"])
+                     for _ in range(rng.randint(1, 4))]
+            name = ".".join(comps)
+            text = rng.choice(["%s = 1\n", "%s {\n  x = 1\n}\n", "s {\n  %s = 1\n}\nb = 2\n", "%s\n  .help = h\n{\n}\n",
+                               "!%s = 1\n", "%s=1;b=2\n"]) % name
+            ctx.count("name_shapes")
+        elif k == 0 and i % 15 == 10:
+            # a built-in type name (with arguments) followed by further Python on the same line
+            t = rng.choice([x for x in TYPES if x])
+            suffix = rng.choice([".value_min", ".__class__", " and None", ", int()", "()", "[0]", "+1", " or 1", ".x", ".multi",
+                                 " if 0 else 3", " == 1", ".phil_type", ".__dict__", " is None", ".size_min", "(1)", " ,"])
+            text = "v = 1\n  .type = %s%s\n" % (t, suffix)
+            ctx.count("type_suffixes")
         elif k == 0:
             text = gen.soup(rng)
         elif k == 1:
@@ -193,10 +234,14 @@ def run(ctx):
         elif k == 3:
             # ---- argument interpreter
             name = rng.choice(["a", "b", "c", "s.h", "h", "m.u", "u", "s.m.w", "zz", "s", "", "a.", ".a", "e", "f", "g", "st", "i",
-                               "a%b", "%s", "a%"])
+                               "a%b", "%s", "a%", "a..b", "s..h", "s.m..u", "..a", "a..", "s.1", "s.h.", "s.-h"])
             val = rng.choice(VALUES) if rng.random() < 0.7 else gen.soup(rng, rng.randint(1, 4))
             arg = rng.choice(["%s=%s", "%s = %s", "%s=%s;", "%s %s", "--%s=%s", "%s==%s", "%s={%s}", "--%s%s"]) % (name, val)
-            interp = master().command_line_argument_interpreter(home_scope=rng.choice([None, "s", "s.m", "x"]))
+            mm = master()
+            if i % 40 == 3:
+                mm = freephil.parse(input_string=rng.choice(["", "s {\n}\n", "s {\n  t {\n  }\n}\n", "!a = 1\n"]))
+                ctx.count("masters_without_parameters")
+            interp = mm.command_line_argument_interpreter(home_scope=rng.choice([None, "s", "s.m", "x"]))
             out = guarded(lambda: interp.process(arg=arg))
             note("process_arg", arg, out)
             def pf():
